@@ -11,7 +11,7 @@ KMER_COMMON = [
 ASSUMPTIONS = {
     "C01": KMER_COMMON + [
         "unverified glue: hashbrown entry()/and_modify()/or_insert() around the IUPAC update and the two palindrome closures (SkaDict::add_to_dict / add_palindrome_to_dict) behave as a map update",
-        "unverified glue: SkaDict::add_file_kmers' needletail loop and proportion_reads stride; decode_kmer / Display / Debug used by `ska nk` (String code)",
+        "what add_file_kmers does with one window (filter consulted iff reads and quality passes; canonical add; palindrome dispatch) is proved on the two lifted statements with the dictionary / count filter reduced to ghost logs; still unverified glue: its needletail loop and proportion_reads stride, the `while let` skeleton around the two statements (the identical skeleton is verified in RefSka::new.collect_record), decode_kmer / Display / Debug used by `ska nk` (String code)",
         "assumed contract: NtHashIterator::new (iterator adapters) == fold fh_n/rh_n; cross-checked per k by Kani against index-loop mirrors that Verus proves equal to the folds for every k",
     ],
     "C02": KMER_COMMON + [
